@@ -66,7 +66,9 @@ def gen_structure(seed, tier, i):
         return structures.gen_many(s, 10, 16)
     if mode < 0.35:
         return structures.gen_broom(s)
-    if mode < 0.365:
+    if mode < 0.38:
+        return structures.gen_large(s)
+    if mode < 0.395:
         # 10-13 (nearly) mutually crossing stems: the optimum itself needs two-digit levels and the letter
         # brackets.  Beyond both exact 0-1 stubs; answered by the real CBC binary only (see phase_a)
         return structures.gen_near_ladder(s)
@@ -212,7 +214,7 @@ def run_index(seed, tier, i, tmpdir):
                         seen.add(y)
                         todo.append(y)
             biggest = max(biggest, size)
-        if biggest <= 6:
+        if biggest <= 6 and len(stl) <= 14:  # all_dot_brackets is a product over the components: keep it small
             try:
                 listed = {d.structure for d in solve_engine.make_bpseq(st["triples"]).all_dot_brackets}
                 out["probe_checked"] = len(notations)
